@@ -39,7 +39,7 @@ def grammar():
 
 
 NATIVE = r'''
-import json, sys, itertools
+import socket, json, sys, itertools
 sys.path.insert(0, %(native)r)
 import fakenet as F
 from ssh_audit.banner import Banner
@@ -81,9 +81,13 @@ pre = [[], [b'Welcome to host'], [b'line one', b'', b'SSH is great', b'   ']]
 for hdr in pre:
     for eol in (b'\r\n', b'\n'):
         for seg in (None, 1, 7):
+          for after in ('close', 'wait'):
+            # after its identification string a real server waits for ours ('wait': the next read times out); 'close': it hangs up
             cases += 1
             stream = b''.join(l + eol for l in hdr) + b'SSH-2.0-OpenSSH_9.9 comment here' + eol
             chunks = [stream] if seg is None else [stream[i:i + seg] for i in range(0, len(stream), seg)]
+            if after == 'wait':
+                chunks = chunks + [socket.timeout('timed out')] * 3
             peer = F.Peer('healthy')
             peer.script = lambda n, chunks=chunks: list(chunks)
             with F.FakeNet({'h.test': peer}):
@@ -92,7 +96,7 @@ for hdr in pre:
                 banner, header, e = s.get_banner()
             want_h = [l.decode() for l in hdr if l.strip()]
             if banner is None or str(banner) != 'SSH-2.0-OpenSSH_9.9 comment here' or header != want_h:
-                fail({'header lines': [l.decode() for l in hdr], 'eol': repr(eol), 'segment': seg}, {'banner': str(banner), 'header': header}, {'banner': 'SSH-2.0-OpenSSH_9.9 comment here', 'header': want_h}, 'header')
+                fail({'header lines': [l.decode() for l in hdr], 'eol': repr(eol), 'segment': seg, 'then': after}, {'banner': str(banner), 'header': header}, {'banner': 'SSH-2.0-OpenSSH_9.9 comment here', 'header': want_h}, 'header')
 # product families
 fam = [('OpenSSH_%%s', 'OpenSSH'), ('dropbear_%%s', 'Dropbear SSH'), ('libssh-%%s', 'libssh'), ('libssh_%%s', 'libssh'), ('tinyssh_%%s', 'TinySSH'), ('PuTTY_Release_%%s', 'PuTTY')]
 for tmpl, prod in fam:
